@@ -161,10 +161,27 @@ RECURSIVE Constructible(_)
 Constructible(t) == /\ (t.k = "inc" => \A l \in Valid : EnE(t.e, l) => En(t.c[1], l))
                     /\ \A i \in 1..Len(t.c) : Constructible(t.c[i])
 
+\* sampler nodes that take a sampling decision (and call their decision hook) for an entry of level l: those the
+\* Check recursion reaches, whose wrapped core enables the level, for in-range levels only
+RECURSIVE Decides(_, _, _)
+Decides(t, l, p) ==
+  CASE t.k = "tee"  -> Decides(t.c[1], l, Append(p, 1)) \cup Decides(t.c[2], l, Append(p, 2))
+    [] t.k = "inc"  -> IF En(t, l) THEN Decides(t.c[1], l, Append(p, 1)) ELSE {}
+    [] t.k = "hook" -> Decides(t.c[1], l, Append(p, 1))
+    [] t.k = "lazy" -> IF En(t.c[1], l) THEN Decides(t.c[1], l, Append(p, 1)) ELSE {}
+    [] t.k = "samp" -> IF ~En(t.c[1], l) THEN {}
+                       ELSE IF l \notin Valid THEN Decides(t.c[1], l, Append(p, 1))
+                       ELSE {p} \cup (IF t.e = 0 THEN {} ELSE Decides(t.c[1], l, Append(p, 1)))
+    [] OTHER -> {}
+\* a sampler never decides on an entry its own core would not take
+NoBudgetForDisabled == \A l \in Levels : \A sp \in Decides(tree, l, <<>>) : En(Sub(tree, sp).c[1], l)
+RECURSIVE SetToSeq(_)
+SetToSeq(S) == IF S = {} THEN <<>> ELSE LET x == CHOOSE y \in S : TRUE IN <<x>> \o SetToSeq(S \ {x})
+
 \* ---- behaviours ----------------------------------------------------------
 ObsJson == [al |-> al, lvl |-> Lvl(tree),
             per |-> [i \in 1..10 |-> LET l == i - 3 IN
-                       [l |-> l, en |-> En(tree, l), ce |-> FrontEnd(tree, l, FALSE)]]]
+                       [l |-> l, en |-> En(tree, l), ce |-> FrontEnd(tree, l, FALSE), dec |-> SetToSeq(Decides(tree, l, <<>>))]]]
 
 Init == /\ tree \in Trees(Depth)
         /\ al \in (IF UsesAtomic(tree) THEN AtomVals ELSE {Debug})
